@@ -6,6 +6,11 @@
 (***************************************************************************)
 EXTENDS Naturals, Integers, Sequences, Big
 
+\* Let(v, F): F applied to the VALUE of v.  TLC passes operator arguments and LET definitions by
+\* name and may re-evaluate them at every use; binding through a set comprehension evaluates v
+\* exactly once.
+Let(v, F(_)) == CHOOSE x \in {F(r) : r \in {v}} : TRUE
+
 Zeros(n) == [i \in 1..n |-> 0]
 Fill(n, v) == [i \in 1..n |-> v]
 
